@@ -61,6 +61,10 @@ pub const ALPHABET: &[&str] = &[
     // a line of several steps whose middle step yields nil (the steps after it never run): the
     // session must survive it
     /* 19 */ "y = 5\n[q, 9] = [1, 2]\nz = 2",
+    // a module *type* first mentioned by a compiler-rejected line, then used by an accepted one
+    /* 20 */ "l = [Nil, 3] %list.prepend",
+    /* 21 */ "l =('%list<'int>)m, nope",
+    /* 22 */ "l =('%list<'int>)m, m",
 ];
 
 /// A top-level tail call on a REPL line (no one-piece counterpart: in one program it ends the
